@@ -707,7 +707,11 @@ func parityPhiMap(phi *ssa.Phi) map[int64]int64 {
 func checkAlternatingParity(p *core.Program, r *core.Report, dec *ssa.Function) {
 	alt := alternationPredicate(p)
 	if alt == nil {
-		r.Note("no isAlternatingTokens helper: alternating parity map not compared")
+		if _, has := alternatingKind(p); has {
+			r.Unrecognised("R11.3", core.FuncName(dec), "alternating parity->type maps", p.Pos(dec.Pos()), "the decoder assigns token types by index parity under one kind, but the predicate Kind() uses to choose that kind was not resolved")
+			return
+		}
+		r.Note("no alternating layout in the decoder: parity map not compared")
 		return
 	}
 	// encoder side: under guard idx%2 == par, compare type != T leads to return false
